@@ -3,6 +3,7 @@ Line-protocol front end for the RFC 1951 specification (kind `fl`).
 -/
 import Compress.Util
 import Compress.Flate.Spec
+import Compress.Flate.Impl
 
 namespace Compress.Drv
 open Compress.Util Compress.Flate Compress
@@ -17,6 +18,25 @@ def handleFl (kv : List (String × String)) : String :=
   | some bs =>
     let r := decode bs
     s!"{hexOfBytes r.out.toList}:{verdictName r.verdict}"
+  | none => "bad-line"
+
+end Compress.Drv
+
+namespace Compress.Drv
+open Compress.Util Compress Compress.Flate.Impl
+
+def ferrName : Option FErr → String
+  | none => "nil" | some .eof => "eof" | some .unexpectedEOF => "ueof" | some .corrupted => "corrupt"
+
+/-- kind `flr`: the Go-shaped model of flate.Reader driven by a schedule of Read sizes. -/
+def handleFlr (kv : List (String × String)) : String :=
+  match bytesOfHex (lookupD kv "in" "-") with
+  | some bs =>
+    let sched := ((splitList (lookupD kv "sched" "4096") ',').filterMap parseNat)
+    let bits := Bits.ofBytes bs
+    let (out, e, s) := run (300 * bits.length + sched.length + 16) (init bits) sched
+    let inOff := (s.total - s.bits.length + 7) / 8
+    s!"{hexOfBytes out}:{ferrName e}:{if e = some .eof then toString inOff else "-"}:{s.outOff}"
   | none => "bad-line"
 
 end Compress.Drv
